@@ -155,8 +155,9 @@ def run(tier, seed, procs):
     cols = drive.pool_map(history.shard_history,
                           [(MOD, runs, steps, seed * 1000 + 500 + i,
                             {'kinds': kinds + ['roReplace', 'roMetadataReplace', 'roStorySend'],
-                             'faults': 'some'}) for i in range(hs)], procs)
-    kw = dict(kinds=kinds, faults='some', rich=True)
+                             'faults': 'some', 'foreign_ro': False}) for i in range(hs)], procs)
+    # (every message is addressed to this running order: C14 speaks of the original roID for those)
+    kw = dict(kinds=kinds, faults='some', rich=True, foreign_ro=False)
     shards, per = (8, 250) if quick else (16, 10000)
     cols += drive.pool_map(drive.shard_hyp_steps,
                            [(MOD, per, seed * 1000 + i, kw) for i in range(shards)], procs)
